@@ -6,6 +6,10 @@ copy.deepcopy, open(temp,'w') (+ two chunked writes), os.replace is a hand-over 
 Save v | Shutdown | Crash | IoError | Tick) decides what happens between two hand-over points.  Real files in a
 scratch directory; after every op the directory is inspected (file parsed with the real FileManager.load).
 
+Suite "stop": the REAL MachineController._do_stop / shutdown / _platform_stop (run on a stub machine) with a REAL
+EventManager: handlers of the `shutdown` event (and of events they post) call save_all and let the writer thread run;
+then thread_stopper is set, devices/platforms stop, the thread is drained.
+
 Suite "vars": real MachineVariables on a fake machine + real DataManager/YAML file; set/configure/remove/advance
 clock, then "reboot" (fresh DataManager + MachineVariables on the same file) at a generated time.
 """
@@ -30,6 +34,11 @@ RULE = ("writer: schedules of 4-40 ops over {Save v, Shutdown, Crash, IoError, C
         "two: two real managers/threads sharing is_busy, 10-120 ops tagged with the thread that moves, both threads walked "
         "into the test-and-set window together; non-trivial = both inside FileManager.save at once or one at the flag "
         "test while the other writes. "
+        "stop: 0-3 saves with the writer walked to any point of its loop (mid-write, rate-limit pause, idle), then the real "
+        "_do_stop: 1-3 handlers of the shutdown event with distinct priorities, each a script of writer ticks / save_all / "
+        "post of a further event whose handler saves; writer ticks while 'Shutting down' is logged, during stop_devices and "
+        "platform.stop; drain; non-trivial = a handler saved while the writer was writing / pausing, or data was pending "
+        "when thread_stopper was set. "
         "snap: live dict of 2-6 cells, main thread assigns cells at a pre-emption point inside the real deepcopy; "
         "non-trivial = assignments on both sides of the copy position. "
         "fsave: 2-11 direct FileManager.save calls on two files through the real ruamel dumper: good / unrepresentable "
@@ -37,13 +46,19 @@ RULE = ("writer: schedules of 4-40 ops over {Save v, Shutdown, Crash, IoError, C
         "vars: 3-14 ops set/configure/remove/advance on real MachineVariables with values of every YAML kind (falsy ones, "
         "equal values of different types, same value set again before its deadline), reboot at a time on either side of / "
         "exactly at a deadline the history produced, optionally from a missing/empty/corrupt/non-UTF-8/list/scalar file "
-        "or one with a malformed entry; non-trivial = a persisted variable exists at the reboot")
+        "or one with a malformed entry; 30 % of the cases end with remove_machine_var of a (mostly persisted) variable as the "
+        "LAST change of the persisted subset before power off (optionally followed by clock advance / changes of "
+        "non-persisted variables); non-trivial = a persisted variable exists at the reboot")
 TRUSTED_BASE = [
     "Coq 8.16.1 kernel (coqc), vm_compute for refutation witnesses and for evaluating the model in the correspondence run",
     "axioms: none (every Print Assumptions is 'Closed under the global context')",
     "hand-written models coq/C15/Model.v (pc machine of _writing_thread + FileManager.save + disk; machine variables), "
     "Two.v (two such threads sharing is_busy/stopper), Copy.v (cell-wise deepcopy) tied to the working tree by "
     "lock-stepping the real threads (harness/props/c15.py) and comparing flags and directory contents after every op; "
+    "Stop.v (ordering of _do_stop as a schedule of that machine) tied by running the real MachineController._do_stop / "
+    "shutdown / _platform_stop as functions of a stub machine object (real EventManager, real DataManager + lock-stepped "
+    "writer thread; stub log / device_manager / platform / fresh asyncio loop) and comparing the realised run with "
+    "stop_run; Vars2.v (removal) uses the vars model; "
     "Crash.v (os-call sequences, power loss) is model-only except that the observed call sequence of the real save is "
     "what its save_calls lists",
     "the lock-step shims (time.sleep, threading.Event, copy.deepcopy, _thread.start_new_thread as seen by "
@@ -63,8 +78,14 @@ ASSUMPTIONS = [
     "write-back it can be empty - the code does not fsync; not tied to the code",
     "two managers stand for several: the theorems are about two threads, the flag logic is symmetric",
     "liveness under interference needs fairness: stated for rounds in which the threads take turns",
-    "clean shutdown = thread_stopper set and the writer threads allowed to run to their end (MachineController.shutdown "
-    "does not join them; see NOTES.md)",
+    "clean shutdown = MachineController._do_stop has returned (shutdown event processed, thread_stopper set) and the "
+    "writer threads are allowed to run to their end (MachineController.shutdown does not join them; see NOTES.md); "
+    "stop_terminates: they end within 24 steps",
+    "suite stop: the handlers of the shutdown event are scripts (ticks of the writer thread / save_all / post); the rest of "
+    "MachineController (devices, platforms, BCP, the asyncio loop's tasks) is stubbed - only the ORDER of shutdown event, "
+    "thread_stopper.set() and the later stop calls is taken from the real code",
+    "a change of the live dict that makes a snapshot fail AFTER the shutdown request (the flush after the loop copies "
+    "outside a try) is outside 'clean shutdown', like a save_all after the request",
     "statement granularity: a thread is only pre-empted at calls the harness can intercept; is_busy reads/writes "
     "are merged with the adjacent intercepted call; one pre-emption point inside deepcopy",
     "machine-variable values are tokens for ==-classes of Python values; the YAML round trip of the values is checked on "
@@ -731,11 +752,23 @@ def oracle_writer(case, out):
     j, v = saves[-1]
     if shut is not None and j > shut:
         return fails            # data handed over after the shutdown request: outside "clean shutdown"
-    if faults and faults[-1] > j:
-        return fails            # the write of the last version itself was hit by the injected fault
+    after = [f for f in faults if f > j]
+    if any(ops[f] == "E" for f in after):
+        return fails            # the WRITE of the last version itself was hit by an injected I/O error (not retried)
+    if any(shut is not None and f > shut for f in after):
+        return fails            # the live dict changed after the shutdown request: outside "clean shutdown"
     settled = last[0] == 12 or (last[0] in (2, 3) and last[1] == 0)
     if last[4] != v:
-        if faults and ops[faults[-1]] == "M":
+        if after:
+            # only SNAPSHOTS of the last version failed (the main thread changed the live dict during the copy), all
+            # before any shutdown request, and nothing was handed over afterwards: the data must still reach the disk -
+            # retried by the writer within the rate limit while running, flushed at a clean shutdown
+            fails.append({"sig": "failed-snapshot-not-retried",
+                          "what": "the snapshot of version %d failed (op %d: live dict changed size during deepcopy), no "
+                                  "later save_all%s: the data never reached the disk (file=%d, thread at pc %d, dirty=%d)"
+                                  % (v, after[-1], ", clean shutdown at op %d" % shut if shut is not None else "",
+                                     last[4], last[0], last[1])})
+        elif faults and ops[faults[-1]] == "M":
             fails.append({"sig": "lost-save-after-failed-snapshot",
                           "what": "the live dict changed size while the writer thread copied it (deepcopy raised); "
                                   "version %d saved AFTER that never reached the disk (thread at pc %d, died with %s)"
@@ -911,10 +944,13 @@ def oracle_two(case, out):
         # faults of THIS manager after its last save excuse it; faults of the OTHER manager never do
         own = [i for i, o in enumerate(ops) if (o == t + "E" and obs[i][pcol] in (7, 8, 9, 10)) or (o == t + "M" and obs[i][pcol] == 6)]
         other = [i for i, o in enumerate(ops) if o[0] != t and o[1:] in ("E", "M")]
-        if own and own[-1] > j:
+        after = [f for f in own if f > j]
+        if any(ops[f][1] == "E" for f in after) or any(shut is not None and f > shut for f in after):
             continue
         if last[fcol] != v:
-            if own and ops[own[-1]][1] == "M":
+            if after:
+                sig = "failed-snapshot-not-retried"
+            elif own and ops[own[-1]][1] == "M":
                 sig = "lost-save-after-failed-snapshot"
             elif own:
                 sig = "lost-save-after-failed-write"
@@ -956,6 +992,282 @@ def describe_two(case):
 
 
 HDR_TWO = "From C15 Require Import Model Two.\nDefinition run := two_run.\nDefinition out_eqb := zss_eqb.\n"
+
+# ------------------------------------------------------------------------------------------------
+# suite "stop": the shutdown path.  The REAL MachineController._do_stop / shutdown / _platform_stop run (as functions of
+# a stub machine object) with a REAL EventManager: `shutdown` is posted and processed - its handlers hand data to the
+# data manager (Auditor with `save_events: shutdown`, custom code storing state at power off) and take time, during
+# which the lock-stepped writer thread runs -, then thread_stopper is set, devices and platforms are stopped (the writer
+# runs on), the thread is drained.  Spec of the ordering (Stop.stop_ops): every save issued before _do_stop returns
+# comes BEFORE the shutdown request the writer sees.
+class RecStopEvent(StopEvent):
+    on_set = None
+
+    def set(self):
+        StopEvent.set(self)
+        if self.on_set:
+            self.on_set()
+
+
+def gen_stop(rng, tier, i):
+    pre = ["T"] * rng.choice([0, 1, 2, 3])
+    nv = 0
+    for _ in range(rng.choice([0, 1, 1, 2, 3])):
+        nv += 1
+        pre.append("S%d" % nv)
+        # walk the writer to any point of the save sequence / into its rate-limit pause / back to idle
+        pre += ["T"] * rng.choice([0, 1, 2, 3, 4, 5, 6, 7, 7, 8, 8, 9, 10, 12])
+    prios = rng.sample([1, 2, 5, 10, 50, 100, 1000], rng.choice([1, 1, 2, 3]))
+    handlers = []
+    second = []
+    for pr in prios:
+        acts = []
+        for _ in range(rng.choice([1, 2, 3, 5])):
+            r = rng.random()
+            if r < 0.55:
+                acts += ["T"] * rng.choice([1, 1, 2, 3, 4, 6])     # I/O of this handler: the writer thread runs
+            elif r < 0.9:
+                nv += 1
+                acts.append("S%d" % nv)
+            else:
+                # the handler posts another event whose handler saves (processed before _do_stop goes on)
+                nv += 1
+                second.append(["T"] * rng.choice([0, 1, 3]) + ["S%d" % nv])
+                acts.append("P%d" % (len(second) - 1))
+        handlers.append([pr, acts])
+    return {"pre": pre, "p0": rng.choice([0, 0, 1, 2, 4]), "handlers": handlers, "second": second,
+            "p2": rng.choice([0, 1, 2, 4, 8]), "p3": rng.choice([0, 1, 3]), "pseed": rng.randrange(10 ** 6),
+            "init_file": rng.random() < 0.25}
+
+
+def stop_expected(case):
+    """-> (pre, [action lists in the order the spec gives], post): shutdown handlers by descending priority, events
+    posted by them afterwards in posting order, all before the shutdown request; then the ticks of the device /
+    platform stop and the drain"""
+    hs = []
+    posted = []
+    for _, acts in sorted(case["handlers"], key=lambda h: -h[0]):
+        hs.append([a for a in acts if a[0] != "P"])
+        posted += [int(a[1:]) for a in acts if a[0] == "P"]
+    hs += [case["second"][k] for k in posted]
+    return case["pre"] + ["T"] * case["p0"], hs, ["T"] * (case["p2"] + case["p3"] + DRAIN)
+
+
+class StopRun(WriterRun):
+    def __init__(self, case):
+        WriterRun.__init__(self, dict(case, pseed=case["pseed"]))
+        import asyncio
+        import warnings
+        with warnings.catch_warnings():
+            warnings.simplefilter("ignore")      # pkg_resources deprecation noise of mpf.core.machine
+            from mpf.core.machine import MachineController
+        from mpf.core.events import EventManager
+        run = self
+
+        class StopMachine(FakeMachine):
+            # the real shutdown path of MachineController, run on this stub
+            _do_stop = MachineController._do_stop
+            shutdown = MachineController.shutdown
+            _platform_stop = MachineController._platform_stop
+            _stop_tasks = MachineController.__dict__["_stop_tasks"]
+
+        class Log:
+            def info(self, msg, *a):
+                if str(msg).startswith("Shutting down"):
+                    run.ticks(case["p0"])
+
+            debug = warning = error = exception = lambda self, *a, **k: None
+
+        class Devices:
+            def stop_devices(self):
+                run.ticks(case["p2"])
+
+        class Platform:
+            def stop(self):
+                run.ticks(case["p3"])
+
+        class Clock:
+            pass
+        m = StopMachine(self.dir, None, None)
+        m.config["mpf"]["paths"] = self.machine.config["mpf"]["paths"]
+        for k in ("console", "file"):
+            m.config["logging"][k]["event_manager"] = "none"
+        m.thread_stopper = RecStopEvent()
+        m.thread_stopper.on_set = lambda: run.rec("H")
+        self.loop = asyncio.new_event_loop()
+        m.clock = Clock()
+        m.clock.loop = self.loop
+        m.log = Log()
+        m.is_shutting_down = False
+        m.stop_future = self.loop.create_future()
+        m.device_manager = Devices()
+        m.hardware_platforms = {"virtual": Platform()}
+        m.events = EventManager(m)
+        self.machine = m
+        self.rops = []
+        self.obs = []
+
+    def observe(self):
+        m = self.mgrs[0]
+        return [m.pc(), int(m.dm._dirty._flag)] + self.flags() + m.codes()
+
+    def rec(self, op):
+        self.rops.append(op)
+        self.obs.append(self.observe())
+
+    def act(self, a):
+        m = self.mgrs[0]
+        if a[0] == "S":
+            m.save(int(a[1:]))
+        elif a[0] == "P":
+            self.machine.events.post("c15_second_%s" % a[1:])
+            return
+        else:
+            m.step("tick")
+        self.rec(a)
+
+    def ticks(self, n):
+        for _ in range(n):
+            self.act("T")
+
+    def close(self):
+        try:
+            WriterRun.close(self)
+        finally:
+            try:
+                if not self.loop.is_closed():
+                    self.loop.close()
+            except Exception:    # noqa
+                pass
+
+
+def run_stop(case):
+    r = StopRun(case)
+    m = r.mgrs[0]
+    try:
+        if case.get("init_file"):
+            m.plain_write(m.fname, 100, 3)
+        r.start()
+        first = r.observe()
+        for a in case["pre"]:
+            r.act(a)
+
+        def handler_for(acts):
+            def handler(**kwargs):
+                del kwargs
+                for a in acts:
+                    r.act(a)
+            return handler
+        for pr, acts in case["handlers"]:
+            r.machine.events.add_handler("shutdown", handler_for(acts), priority=pr)
+        for k, acts in enumerate(case["second"]):
+            r.machine.events.add_handler("c15_second_%d" % k, handler_for(acts))
+        exc = None
+        n_before = len(r.rops)
+        try:
+            r.machine._do_stop()
+        except Exception as e:      # noqa: returned as data
+            exc = type(e).__name__ + ": " + str(e)[:120]
+        n_after = len(r.rops)
+        r.ticks(DRAIN)
+        boot = None
+        if os.path.isfile(m.fname):
+            try:
+                boot = canon(r.FileManager.load(m.fname, halt_on_error=False))
+            except Exception as e:  # noqa
+                boot = "EXC:" + type(e).__name__
+        return {"obs": [first] + r.obs, "rops": r.rops, "exc": exc, "span": [n_before, n_after], "boot": boot,
+                "versions": {str(k): v for k, v in m.versions.items()}, "thread_exc": m.ctl.exc,
+                "stopper": int(r.machine.thread_stopper._flag)}
+    finally:
+        r.close()
+
+
+def coq_stop(case, out):
+    pre, hs, post = stop_expected(case)
+    inp = "(%s, %s, %s, %s, %s)" % (CFG, blit(case.get("init_file")), coqlist(coq_op(o) for o in pre),
+                                    coqlist(coqlist(coq_op(o) for o in h) for h in hs),
+                                    coqlist(coq_op(o) for o in post))
+    return "(%s, %s)" % (inp, coqlist(zlist(o) for o in out["obs"]))
+
+
+def oracle_stop(case, out):
+    """on the REALISED sequence (what the code did, in the order it did it), independent of the model"""
+    fails = []
+    rops, obs = out["rops"], out["obs"]
+    saved = {100} if case.get("init_file") else set()
+    for i, ob in enumerate(obs):
+        if i > 0 and rops[i - 1][0] == "S":
+            saved.add(int(rops[i - 1][1:]))
+        f = ob[4]
+        if f == 0:
+            if case.get("init_file") or any(o[4] != 0 for o in obs[:i]):
+                fails.append({"sig": "file-vanished", "what": "data file missing after it existed (op %d)" % i})
+                break
+        elif f not in saved:
+            fails.append({"sig": "torn-file", "what": "after op %d the data file is not a complete saved version (code %d)" % (i, f)})
+            break
+    if out["exc"]:
+        fails.append({"sig": "do-stop-raised", "what": "MachineController._do_stop raised " + out["exc"]})
+        return fails
+    if out.get("thread_exc"):
+        fails.append({"sig": "thread-died", "what": "writer thread died with %s during a clean shutdown" % out["thread_exc"]})
+    last = obs[-1]
+    if not out["stopper"] or last[0] != 12:
+        fails.append({"sig": "writer-stuck", "what": "after _do_stop and %d ticks the writer thread has not ended "
+                                                     "(pc %d, thread_stopper=%d)" % (DRAIN, last[0], out["stopper"])})
+        return fails
+    # every save issued before _do_stop returned: the last of them is on disk after the clean shutdown
+    lo, hi = out["span"]
+    saves = [(i, int(o[1:])) for i, o in enumerate(rops[:hi]) if o[0] == "S"]
+    if saves:
+        j, v = saves[-1]
+        if last[4] != v:
+            hs = [i for i, o in enumerate(rops) if o == "H"]
+            fails.append({"sig": "lost-save-in-shutdown-handler" if j >= lo else "lost-save-at-shutdown",
+                          "what": "version %d, handed to save_all %s (step %d; thread_stopper set at step %s), is not on "
+                                  "disk after the clean shutdown (file=%d)"
+                                  % (v, "by a handler of the shutdown event" if j >= lo else "before _do_stop", j,
+                                     hs[0] if hs else None, last[4])})
+        elif out["boot"] not in out["versions"].get(str(v), []):
+            fails.append({"sig": "boot-load-differs", "what": "next boot does not load the version on disk"})
+    return fails
+
+
+def shrink_stop(case):
+    pre = case["pre"]
+    for i in range(len(pre)):
+        yield dict(case, pre=pre[:i] + pre[i + 1:])
+    hs = case["handlers"]
+    for i in range(len(hs)):
+        if len(hs) > 1 and not any(a[0] == "P" for a in hs[i][1]):
+            yield dict(case, handlers=hs[:i] + hs[i + 1:])
+        acts = hs[i][1]
+        for k in range(len(acts)):
+            if acts[k][0] != "P":
+                yield dict(case, handlers=hs[:i] + [[hs[i][0], acts[:k] + acts[k + 1:]]] + hs[i + 1:])
+    for key in ("p0", "p2", "p3"):
+        if case[key]:
+            yield dict(case, **{key: 0})
+    if case.get("init_file"):
+        yield dict(case, init_file=False)
+
+
+def nontrivial_stop(case, out):
+    lo, hi = out["span"]
+    rops, obs = out["rops"], out["obs"]
+    # a handler of the shutdown event saved while the writer thread was busy / pausing, or with the write pending at
+    # the moment the shutdown request was made
+    in_handler = [i for i in range(lo, min(hi, len(rops))) if rops[i][0] == "S"]
+    return any(obs[i][0] in (1, 5, 6, 7, 8, 9, 10) for i in in_handler) or \
+        any(o == "H" and obs[i][1] == 1 for i, o in enumerate(rops))
+
+
+def describe_stop(case):
+    return "handlers=%d%s" % (len(case["handlers"]), " posted" if case["second"] else "")
+
+
+HDR_STOP = "From C15 Require Import Model Stop.\nDefinition run := stop_run.\nDefinition out_eqb := zss_eqb.\n"
 
 # ------------------------------------------------------------------------------------------------
 # suite "snap": the main thread ASSIGNS values in the live dict (no change of size) while the writer thread's deepcopy
@@ -1188,6 +1500,27 @@ def gen_vars(rng, tier, i):
             lastv.pop(name, None)
         else:
             ops.append(["adv", rng.choice([0, 1, 9, 10, 11, 50, 100, 3600])])
+    if rng.random() < 0.3:
+        # removal of a persisted variable as the LAST change of the persisted subset before power off (what Game does
+        # with player2..4_score at the end of a one player game): nothing later heals the file
+        name = rng.choice([1, 2, 3, 4])
+        if rng.random() < 0.6:
+            if rng.random() < 0.5:
+                ops.append(["conf", name, True, rng.choice([0, 0, 0, 100, 3600])])
+                ops.append(setop(name, False))
+            else:
+                ops.append(setop(name, True))
+            if rng.random() < 0.4:      # other persisted variables stay
+                other = rng.choice([n for n in (1, 2, 3, 4) if n != name])
+                ops.append(setop(other, True))
+        for _ in range(rng.choice([1, 1, 1, 2, 3])):
+            ops.append(["remove", name])
+            name = rng.choice([1, 2, 3, 4])
+        if rng.random() < 0.4:
+            ops.append(["adv", rng.choice([0, 1, 10, 100])])
+        if rng.random() < 0.3:          # a later change of something that is NOT persisted does not write
+            ops.append(["conf", 4, False, 0])
+            ops.append(["set", 4, rng.randint(1, 9), False])
     # reboot times: on both sides of, and exactly at, every deadline a variable had at any time of the history
     _, now, seen = spec_deadlines(ops)
     dts = [0, 1, 9, 10, 11, 89, 90, 99, 100, 101, 3599, 3600, 3601, 5000, 100000]
@@ -1460,6 +1793,25 @@ def oracle_vars(case, out):
         else:
             fails.append({"sig": "persist-reload-differs",
                           "what": "persistent variable %s = %s reloads as %s" % (n, o["eq"][:60], gotv[:60])})
+    # the converse: nothing but the persistent variables comes back.  A variable that had been removed (or was not
+    # persistent) when the machine was shut down must not reappear after the reboot
+    for n, got in sorted(out["new"].items()):
+        if tam and int(n) == tam[1]:
+            continue
+        o = out["old"].get(n)
+        if o is None:
+            removed = [i for i, x in enumerate(case["ops"]) if x[0] == "remove" and x[1] == int(n)]
+            fails.append({"sig": "removed-var-reloaded",
+                          "what": "variable %s did not exist at shutdown (remove_machine_var at op %s) but is back after "
+                                  "the reboot with value %s" % (n, removed[-1] if removed else None, got["eq"][:60])})
+        elif not o["persist"]:
+            if o["unwritten_conf"]:
+                fails.append({"sig": "persist-configured-not-written",
+                              "what": "configure_machine_var made variable %s non-persistent and nothing was written "
+                                      "afterwards: the next boot goes by the stale entry on disk" % n})
+            else:
+                fails.append({"sig": "unpersisted-var-reloaded",
+                              "what": "variable %s was not persistent at shutdown but is back after the reboot" % n})
     return fails
 
 
@@ -1652,6 +2004,8 @@ SUITES = [
           {"quick": 1600, "thorough": 40000}, describe=describe_writer, shard=200),
     Suite("two", gen_two, run_two, HDR_TWO, coq_two, oracle_two, shrink_two, nontrivial_two,
           {"quick": 400, "thorough": 12000}, describe=describe_two, shard=200),
+    Suite("stop", gen_stop, run_stop, HDR_STOP, coq_stop, oracle_stop, shrink_stop, nontrivial_stop,
+          {"quick": 300, "thorough": 8000}, describe=describe_stop, shard=150),
     Suite("snap", gen_snap, run_snap, HDR_SNAP, coq_snap, oracle_snap, shrink_snap, nontrivial_snap,
           {"quick": 150, "thorough": 4000}, shard=200),
     Suite("vars", gen_vars, run_vars, HDR_VARS, coq_vars, oracle_vars, shrink_vars, nontrivial_vars,
@@ -1667,11 +2021,18 @@ LEVEL_TEXT = ("Machine-checked proof (Coq) over a program-counter model of DataM
               "saves (lands within 24 steps from any reachable state; a failed snapshot is retried). The same for TWO managers "
               "sharing the unlocked FileManager.is_busy flag under every interleaving (never torn, both last saves land, a "
               "failure of one does not block the other within 24 fair rounds; the race itself is exhibited and harmless). "
+              "The shutdown path: for the ordering of the real MachineController._do_stop (shutdown event and everything its "
+              "handlers do, THEN thread_stopper) every save issued before or during _do_stop, with the writer anywhere in its "
+              "loop and failed snapshots included, is on disk once the writer has ended, and it ends within 24 steps; with the "
+              "request made before the handlers run a handler's save is lost (refuted witness); clean shutdown is durable "
+              "also for histories with failed snapshots before the request, and false of a writer that does not set _dirty "
+              "again (refuted witness). "
               "Each repair is needed: the statements are refuted (vm_compute witnesses replayed on the code) for the code before "
               "final-flush, busy-finally and snapshot-in-try. Crash points at os-call level: a call sequence is safe at every "
               "prefix iff the only calls touching the data file rename a complete file onto it (rotation / remove-first / "
               "in-place variants refuted). Machine variables: reload restores exactly the unexpired, well-formed entries "
-              "(values of every YAML kind as tokens); persisted variables reload equal whenever the file is in sync, which every "
+              "(values of every YAML kind as tokens); a removed variable is never reloaded, whatever follows that does not set or "
+              "configure it again (false of write-before-delete: refuted witness); persisted variables reload equal whenever the file is in sync, which every "
               "op except configure_machine_var maintains (known finding). The snapshot is only cell-wise consistent (known "
               "finding snapshot-mixes-versions). Models tied to the working tree by lock-stepping the real threads.")
 LEVEL_NOTE = ("Trusted: Coq kernel + vm_compute; no axioms. Hand-written models; correspondence validates flags, pcs and directory "
@@ -1679,9 +2040,11 @@ LEVEL_NOTE = ("Trusted: Coq kernel + vm_compute; no axioms. Hand-written models;
               "copy.deepcopy, open; audit hook for every os-level call). Partial: process-crash model tied, power loss modelled "
               "only (ordered write-back assumed; no fsync in the code); liveness for two managers under a round-robin window; "
               "MachineController.shutdown does not join the writer threads - 'clean shutdown' means the threads are allowed to "
-              "finish; persist_reload_equal stays _partial (guard: no configure since the last write = known finding); YAML codec "
+              "finish; the shutdown path is the real _do_stop/shutdown on a stub machine with scripted shutdown handlers (devices, "
+              "platforms, BCP stubbed); persist_reload_equal stays _partial (guard: no configure since the last write = known finding); YAML codec "
               "not modelled (round trip of every payload/value checked by the oracle); after-bad-file-boot save check is "
               "oracle-only.")
 TECHNIQUE = ("Coq proof over hand-written executable models + differential correspondence (vm_compute) with lock-stepped real "
-             "writer threads (one and two managers) + direct disk/reboot oracle")
+             "writer threads (one and two managers, real MachineController._do_stop + EventManager for the shutdown path) + "
+             "direct disk/reboot oracle")
 DESIGN_REF = "DESIGN.md section 3, C15"
